@@ -409,6 +409,21 @@ def gen_cases(draw):
     else:
         steps = draw(st.lists(st.floats(-3.0, 0.0).map(lambda e: 10.0 ** e), min_size=n - 1, max_size=n - 1))
         scale = draw(st.sampled_from([1.0, 1.0, 10.0, 0.01]))
+        gk = draw(st.integers(0, 9))
+        if gk == 0:
+            # an almost regular grid: steps equal to within 1e-9..1e-5 (a grid that went through a file, a
+            # logarithmic grid over a short range); "regular" it is not
+            h = draw(st.floats(0.01, 1.0))
+            steps = [h * (1.0 + draw(st.sampled_from([1e-9, 1e-7, 1e-6, 3e-6, 8e-6])) * draw(st.integers(-3, 3)))
+                     for _ in range(n - 1)]
+            scale = 1.0
+            case["grid"] = "almost-regular"
+        elif gk == 1:
+            # a grid in small units (wavelengths in metres, times in seconds): all steps below 1e-8, unequal
+            steps = [draw(st.floats(0.5, 4.0)) * 1e-9 for _ in range(n - 1)]
+            scale = 1.0
+            x0 = draw(st.sampled_from([0.0, 5e-7, 1e-6]))
+            case["grid"] = "tiny-steps"
         xs = [x0]
         for s in steps:
             xs.append(xs[-1] + s * scale)
@@ -569,6 +584,8 @@ def classify_gen(case):
     labs = ["form:" + case["form"]]
     if case.get("fas"):
         labs.append("density-given-as:" + case["fas"])
+    if case.get("grid"):
+        labs.append("grid-kind:" + case["grid"])
     if case.get("tails"):
         labs.append("density-far-into-tails:%g-sigma" % case["tails"]["nsig"])
     if any(off == 0 for _, off in case["tab"]):
